@@ -147,3 +147,86 @@ def batch_of_one(term, var="v"):
     batch of one and squeezed (what auto_unsqueeze_args implements)."""
     t = T.rename_syms(term, {var: T.app("unsq", T.sym(var), -2, 2)})
     return T.app("sq", t, -1)
+
+
+def cond_truths(p, pred):
+    """Outcomes, on path p, of the branch conditions whose canonical comparison (interp._cond_key: ('eq'|'gt', a, b)
+    or ('t', term)) satisfies pred(key).  Conditions are found by their *value* (a term), never by the spelling of
+    the test in the source, so renaming a local or inverting a test does not change what is found.
+    Returns the list of truth values of the canonical comparisons (x != y True is reported as eq False)."""
+    from ..interp import _cond_key
+
+    out = []
+    for c in p.conds:
+        v = c[3] if len(c) > 3 else None
+        t = getattr(v, "term", None)
+        if t is None:
+            continue
+        key, flip = _cond_key(t)
+        try:
+            hit = pred(key)
+        except Exception:
+            hit = False
+        if hit:
+            out.append(c[2] != flip)
+    return out
+
+
+def _syms(x):
+    return x.syms() if hasattr(x, "syms") else set()
+
+
+def some_selected(p, where=""):
+    """Did path p decide that a numpy.where(...) selection (made in a function whose site contains `where`) is
+    non-empty?  True / False / None (no such decision on the path).  The count is the named dimension nnz<k>@site."""
+    def pred(key):
+        if key[0] not in ("eq", "gt"):
+            return False
+        a, b = key[1], key[2]
+        sy = _syms(a) | _syms(b)
+        return any(s.startswith("nnz") and where in s for s in sy) and (a.is_zero() or b.is_zero())
+
+    from ..interp import _cond_key
+
+    res = []
+    for c in p.conds:
+        t = getattr(c[3] if len(c) > 3 else None, "term", None)
+        if t is None:
+            continue
+        key, flip = _cond_key(t)
+        if not pred(key):
+            continue
+        truth = c[2] != flip
+        if key[0] == "eq":
+            res.append(not truth)  # count == 0 true -> nothing selected
+        else:
+            # gt(a, b): count > 0  or  0 > count (impossible for a count)
+            res.append(truth if key[2].is_zero() else False)
+    if not res:
+        return None
+    return all(res) if all(res) or not any(res) else None
+
+
+def affine_arange(e):
+    """e = c0 + c1 * arange(...) with a unit-step arange  ->  (first, step, length) as terms, else None.
+    arange(a, b, s) - 1 and arange(a - 1, b - 1, s) are the same progression; comparing (first, step, length)
+    instead of the spelling keeps both forms decided."""
+    ar = [a for a in e.atoms() if isinstance(a, T.App) and a.op == "arange"]
+    if len(ar) != 1:
+        return None
+    A = ar[0]
+    c1 = e.coeff_of_atom(A)
+    rest = e - T.P(A) * T.const(c1)
+    if c1 == 0 or any(isinstance(a, T.App) and a.op == "arange" for a in rest.all_atoms()):
+        return None
+    args = [T.P(x) for x in A.args]
+    if len(args) == 1:
+        a, b, s = T.ZERO, args[0], T.ONE
+    elif len(args) == 2:
+        a, b, s = args[0], args[1], T.ONE
+    else:
+        a, b, s = args
+    sv = s.const_value()
+    if sv not in (1, -1):
+        return None
+    return rest + a * T.const(c1), T.const(c1) * s, (b - a) * s
